@@ -27,11 +27,12 @@ class Case:
     oracle : callable(impl_answer) -> None | str  (property evaluated on the implementation alone)
     stream : generator stream name (for the distribution report)
     """
-    __slots__ = ('req', 'model', 'spec', 'oracle', 'stream', 'expect', 'panic_ok')
+    __slots__ = ('req', 'model', 'spec', 'oracle', 'stream', 'expect', 'panic_ok', 'proj')
 
-    def __init__(self, req, stream, model='same', spec=None, oracle=None, expect=None, panic_ok=False):
+    def __init__(self, req, stream, model='same', spec=None, oracle=None, expect=None, panic_ok=False, proj=None):
         # panic_ok: a panic that the model predicts as well is not a violation (the property has no totality clause)
-        self.req, self.stream, self.spec, self.oracle, self.expect, self.panic_ok = req, stream, spec, oracle, expect, panic_ok
+        # proj: projection applied to the implementation answer before it is compared with the model answer
+        self.req, self.stream, self.spec, self.oracle, self.expect, self.panic_ok, self.proj = req, stream, spec, oracle, expect, panic_ok, proj
         self.model = req if model == 'same' else model
 
 
@@ -75,7 +76,7 @@ def evaluate(ctx, prop, cases):
             st['impl_vs_oracle'] += 1
             violations.append({'kind': 'property', 'stream': c.stream, 'input': c.req, 'impl_output': a,
                                'model_output': model.get(i), 'spec_output': spec.get(i), 'why': why})
-        elif i in model and model[i] != a:
+        elif i in model and model[i] != (c.proj(a) if c.proj else a):
             st['model_vs_impl'] += 1
             violations.append({'kind': 'correspondence', 'stream': c.stream, 'input': c.req, 'impl_output': a,
                                'model_output': model[i], 'spec_output': spec.get(i),
@@ -95,6 +96,8 @@ def signature(v):
 
 def main(argv):
     from .props import PROPS
+    from . import engine
+    engine.register(PROPS)
     if not argv or argv[0] not in PROPS:
         print('usage: check <%s> [--tier quick|thorough] [--replay FILE]' % '|'.join(sorted(PROPS)))
         return 2
